@@ -151,30 +151,54 @@ type callFrameStack interface {
 	IsFull() bool
 	IsEmpty() bool
 
+	// AddReserve(1) lets the stack grow into the frames kept for message handlers,
+	// AddReserve(-1) takes that permission back.
+	AddReserve(d int)
+
 	FreeAll()
 }
 
+// errorHandlerFrames is the number of call frames beyond the configured size that are
+// kept for the message handler of xpcall/PCall: a handler has to run where the error
+// was raised, and for "stack overflow" that is a full stack (Lua 5.1 keeps spare
+// CallInfo slots for the same purpose).
+const errorHandlerFrames = FramesPerSegment
+
 type fixedCallFrameStack struct {
-	array []callFrame
-	sp    int
+	array   []callFrame
+	sp      int
+	reserve int // > 0 while message handlers run: the frames behind the configured size may be used
 }
 
 func newFixedCallFrameStack(size int) callFrameStack {
 	return &fixedCallFrameStack{
-		array: make([]callFrame, size),
+		array: make([]callFrame, size+errorHandlerFrames),
 		sp:    0,
 	}
 }
 
+func (cs *fixedCallFrameStack) limit() int {
+	if cs.reserve > 0 {
+		return len(cs.array)
+	}
+	return len(cs.array) - errorHandlerFrames
+}
+
+func (cs *fixedCallFrameStack) AddReserve(d int) { cs.reserve += d }
+
 func (cs *fixedCallFrameStack) IsEmpty() bool { return cs.sp == 0 }
 
-func (cs *fixedCallFrameStack) IsFull() bool { return cs.sp == len(cs.array) }
+func (cs *fixedCallFrameStack) IsFull() bool { return cs.sp >= cs.limit() }
 
 func (cs *fixedCallFrameStack) Clear() {
 	cs.sp = 0
 }
 
 func (cs *fixedCallFrameStack) Push(v callFrame) {
+	if cs.sp >= cs.limit() {
+		// callers ask IsFull first; the frames behind the limit belong to message handlers
+		panic("lua callstack overflow")
+	}
 	cs.array[cs.sp] = v
 	cs.array[cs.sp].Idx = cs.sp
 	cs.sp++
@@ -224,6 +248,8 @@ type autoGrowingCallFrameStack struct {
 	// It points to the next stack slot to use, so 0 means to use the 0th element in the segment, and a value of
 	// FramesPerSegment indicates that the segment is full and cannot accommodate another frame.
 	segSp uint8
+	// reserve is > 0 while message handlers run: the last segment slot, kept for them, may be used
+	reserve int
 }
 
 var segmentPool sync.Pool
@@ -245,12 +271,23 @@ func freeCallFrameStackSegment(seg *callFrameStackSegment) {
 // FramesPerSegment.
 func newAutoGrowingCallFrameStack(maxSize int) callFrameStack {
 	cs := &autoGrowingCallFrameStack{
-		segments: make([]*callFrameStackSegment, (maxSize+(FramesPerSegment-1))/FramesPerSegment),
+		// one more segment slot than the size asks for: the frames kept for message handlers
+		segments: make([]*callFrameStackSegment, (maxSize+(FramesPerSegment-1))/FramesPerSegment+1),
 		segIdx:   0,
 	}
 	cs.segments[0] = newCallFrameStackSegment()
 	return cs
 }
+
+// lastSeg is the index of the last segment that may be used at the moment.
+func (cs *autoGrowingCallFrameStack) lastSeg() int {
+	if cs.reserve > 0 {
+		return len(cs.segments) - 1
+	}
+	return len(cs.segments) - 2
+}
+
+func (cs *autoGrowingCallFrameStack) AddReserve(d int) { cs.reserve += d }
 
 func (cs *autoGrowingCallFrameStack) IsEmpty() bool {
 	return cs.segIdx == 0 && cs.segSp == 0
@@ -258,7 +295,7 @@ func (cs *autoGrowingCallFrameStack) IsEmpty() bool {
 
 // IsFull returns true if the stack cannot receive any more stack pushes without overflowing
 func (cs *autoGrowingCallFrameStack) IsFull() bool {
-	return int(cs.segIdx) == len(cs.segments)-1 && cs.segSp >= FramesPerSegment
+	return int(cs.segIdx) >= cs.lastSeg() && cs.segSp >= FramesPerSegment
 }
 
 func (cs *autoGrowingCallFrameStack) Clear() {
@@ -283,7 +320,7 @@ func (cs *autoGrowingCallFrameStack) Push(v callFrame) {
 	curSeg := cs.segments[cs.segIdx]
 	if cs.segSp >= FramesPerSegment {
 		// segment full, push new segment if allowed
-		if cs.segIdx < segIdx(len(cs.segments)-1) {
+		if int(cs.segIdx) < cs.lastSeg() {
 			curSeg = newCallFrameStackSegment()
 			cs.segIdx++
 			cs.segments[cs.segIdx] = curSeg
@@ -1881,7 +1918,11 @@ func (ls *LState) PCall(nargs, nret int, errfunc *LFunction) (err error) {
 			if errfunc != nil {
 				errobj := err.(*ApiError).Object
 				ls.Panic = panicWithoutTraceback
+				// the handler runs where the error was raised; if that is a full call stack
+				// ("stack overflow") it runs in the frames kept for it
+				ls.stack.AddReserve(1)
 				defer func() {
+					ls.stack.AddReserve(-1)
 					ls.Panic = oldpanic
 					rcv := recover()
 					if rcv != nil {
